@@ -165,6 +165,10 @@ impl Ctx {
         sw.cases.fetch_add(1, Ordering::Relaxed);
         self.slots[t].0.store(0, Ordering::Relaxed);
     }
+    /// records a sweep that was run by another engine (explicit-state search, loom)
+    pub fn register_sweep(&self, name: &str, bound: &str, cases: u64, exhaustive: bool) {
+        self.sweeps.lock().unwrap().push(std::sync::Arc::new(Sweep { name: name.into(), cases: AtomicU64::new(cases), bound: bound.into(), exhaustive: AtomicBool::new(exhaustive), cap: Mutex::new(None) }));
+    }
     pub fn cap_hit(&self, sweep: &str, what: &str) {
         for s in self.sweeps.lock().unwrap().iter() { if s.name == sweep { s.exhaustive.store(false, Ordering::Relaxed); *s.cap.lock().unwrap() = Some(what.into()); } }
     }
